@@ -456,8 +456,10 @@ def family(node):
     if g is None:
         return None
     bad = [kind_of(ch) for _, ch in children(node) if kind_of(ch) != "col"]
-    if bad and any(b in CRIT_CHILD for b in bad):
-        return mksig("crit_operand", g)
+    crit = [b for b in bad if b in CRIT_CHILD]
+    if crit:
+        # NOT as an operand is a case of its own: its un-bracketed text (NOT "foo"='bar') is pinned by the repository's tests
+        return mksig("crit_operand", g, "not") if all(b == "not" for b in crit) else mksig("crit_operand", g)
     return None
 
 
